@@ -18,11 +18,27 @@ PARSE_TB = ["nom 7.1.3 combinators (tag, alpha1, digit1, fold_many0, verify, alt
             "T4/T5 translators translate/context.py, translate/shape.py (narrow regex facts; a fact not found becomes '?' and shape_ok fails)",
             "HashMap<String, ContextElement> modelled as an association list with overwrite-on-insert"]
 
+TRI_TB = ["Rc<RefCell<..>> aliasing modelled by an explicit heap with ids (Cav/Model/Sweep.lean); BTreeSet<YEdge> with its state-dependent comparator modelled as a list scanned with the same comparator (exact for <= 11 active edges or a consistent order); BTreeMap of events as a sorted association list; HashSet<Pt> as a list",
+          "exact integer oracle harness/src/geo.rs (validity, proper crossing, tiling) written independently of the crate"]
+TRI_AS = ["oracle inputs are integer lattice points (exact i128 predicates); the model is additionally compared on non-finite/signed-zero/1e300 inputs"]
+
 PROPS = {
     "C01": P(["quad1d"], tb=QUAD_TB, assumptions=QUAD_AS,
              partial="success clause ('a few hundred subdivisions suffice') and the transcendental class are explored, not proved; rounding explored"),
     "C02": P(["quad1d"], tb=QUAD_TB, assumptions=QUAD_AS,
              partial="the tiling theorem is over Rat; at Float a panel one ulp wide bisects onto itself and is dropped (loss <= 1 ulp*|f|), reproduced by the Float model and bounded by the oracle"),
+    "C05": P(["eval"], tb=["T2 translator translate/ad.py + translate/rustexpr.py (mini Rust-expression parser; every generated def is cross-checked bit-for-bit at Float against the real AD method by stream eval)",
+                          "Mathlib's HasDerivAt / special functions (Real.sin, Real.arsinh, ...) as the meaning of 'mathematical derivative'"],
+             assumptions=["evaluation points interior to the domain by a margin (oracle) / InDomain (theorem)"],
+             partial="rounding 'commensurate with conditioning' explored by oracles only; x**0 at x=0 under AD is NaN (outside 'interior of the domain')"),
+    "C03": P(["tri"], tb=TRI_TB, assumptions=TRI_AS,
+             partial="the tiling clauses (inside, pairwise disjoint, area sum) are decided by the exact integer oracle on every explored input (exhaustive on the 4x4 lattice up to 6 vertices); the all-input theorems cover non-degeneracy and the local geometry"),
+    "C04": P(["tri"], tb=TRI_TB, assumptions=TRI_AS,
+             partial="acceptance of every valid set is decided by exhaustive enumeration + structured generators, not by a theorem (needs the sweep invariant)"),
+    "C15": P(["tri"], tb=TRI_TB, assumptions=TRI_AS,
+             partial="panic-freedom of the model is decided on explored inputs; the deep field-wise `==` of BTreeSet::range's sanity check is modelled by identity only"),
+    "C16": P(["tri"], tb=TRI_TB, assumptions=TRI_AS,
+             partial="global rejection of every proper crossing is decided by exhaustive enumeration; the theorems cover the local crossing test"),
     "C06": P(["parse", "eval"], tb=PARSE_TB, assumptions=["user-registered names are ASCII words without a case-insensitive nan/inf prefix (CtxOK); see DESIGN C06"],
              partial=""),
     "C10": P(["quad1d"],
@@ -41,6 +57,31 @@ LEVEL_TEXT = {
         "text": "Theorem gk1d_ok_is_tiling_sum (Rat, every integrand f : Q -> Q, all bounds/tolerances/budgets incl. none): a successful result is the sum of K21 panel estimates over a directed chain tiling [a,b], the estimate is the sum of |G10-K21|, every panel occurs in the evaluation trace; chain_additive / chain_length_sum (no gap, overlap, repetition); 31 abscissae per panel; table exactness theorems of C01. The model's abscissa sequence is compared bit-for-bit with the sequence the real integrand callback receives.",
         "note": "Trusts: Lean kernel, sorted-list model of BTreeSet, translator T1, harness. Exact-arithmetic theorem; rounding clause explored by the trace-reconstruction oracle.",
         "technique": "Lean 4 invariant proof by induction on the iteration budget + callback-trace correspondence",
+    },
+    "C05": {
+        "text": "Theorem ad_correct (R, Mathlib HasDerivAt): for every expression tree, any number of variables, every point in the open domain (InDomain) and ARBITRARY tangents, evalAD returns the plain value and the derivative along the curve; 21 per-primitive spec lemmas about the GENERATED defs (Gen/AD.lean is re-translated from differentiable.rs on every run, so a dropped quotient-rule term breaks AD.div_spec); value independent of tangent and tangent linear (all trees, no domain hypothesis), D1 accessors, chain rule, |det| of the Jacobian. Each generated def is compared bit-for-bit at Float with the real method on dense grids; oracles with independent derivative formulas and finite differences.",
+        "note": "Trusts: Lean kernel, Mathlib, translator T2, harness. Rounding explored only; libm accuracy trusted.",
+        "technique": "Lean 4 / Mathlib induction on expression trees over translator-generated AD primitives + bit-exact differential check",
+    },
+    "C03": {
+        "text": "Sweep model (heap-explicit, line-by-line) agrees with triangulate_polygon_set on ordered triangle lists and error payloads, at Float and in exact arithmetic (XQ); theorems (XQ, all inputs): emitted triangles come only from clockwiseSign = C triples, which are non-degenerate; local geometry lemmas. The full tiling specification (corners, inside, disjoint, exact area) is evaluated by an independent exact integer oracle on EVERY vertex sequence up to 6 vertices on the 4x4 lattice (17.9M) plus structured nested sets.",
+        "note": "Trusts: Lean kernel, heap/list models of Rc/BTreeSet/BTreeMap, harness oracle. The tiling clause itself is exhaustive exploration, not a theorem (DESIGN §6 risks).",
+        "technique": "Lean 4 theorems on a heap-explicit sweep model + exhaustive small-lattice enumeration with exact oracle",
+    },
+    "C04": {
+        "text": "Exhaustive: every valid single polygon with up to 6 vertices on the 4x4 lattice (548k+ valid of 17.9M sequences), all orientations/start vertices, and structured families (L, U, plus, T, comb, spiral, holes with islands) under dihedral maps/scalings/shears must be accepted; the sweep model at Float and at XQ reproduces every Ok/Err. Validation theorems (XQ): validation errors name a defect that is present.",
+        "note": "Acceptance is decided by enumeration, the theorem part covers validation only. Genuine defect repaired by fix commit 18aefee (see known_findings.jsonl).",
+        "technique": "exhaustive enumeration against a Lean-modelled sweep + Lean validation theorems",
+    },
+    "C15": {
+        "text": "The model has explicit panic outcomes (RefCell borrow conflicts, unreachable!, index, B-tree range sanity) and is compared with the implementation under catch_unwind on every vertex sequence up to 6 vertices on the 4x4 lattice, random soups, NaN/inf/-0/subnormal/1e300 coordinates, empty and short inputs; theorems (XQ, all inputs): error classification of validation (NoPolygon / NonFinite / Duplicate name a present defect; first-polygon completeness), fromTriplet/validPt characterisations.",
+        "note": "Genuine defect (RefCell double borrow, unreachable!) repaired by fix commit d71cca1. Panic-freedom beyond the explored inputs is not a theorem.",
+        "technique": "Lean 4 theorems on the sweep model's validation + exhaustive panic search with model correspondence",
+    },
+    "C16": {
+        "text": "Exact proper-crossing oracle x implementation on every vertex sequence up to 6 vertices on the 4x4 lattice (4.87M with a proper crossing: all must be rejected), random multi-polygon soups; model correspondence at Float and XQ; theorems: affine order lemma behind will_overlap_* (edges ordered at both ends of a span do not cross inside it; a proper crossing reverses the order).",
+        "note": "Genuine defects repaired by fix commits f406d59 and 18aefee. Global rejection is enumeration, not a theorem.",
+        "technique": "exhaustive enumeration with exact oracle + Lean local lemmas",
     },
     "C06": {
         "text": "Tie theorems (by decide on regenerated data): the operator tags, or_else order, allow_neg arguments, '^ before **', negation-last, left folds, bracket flags and residue checks of parsing.rs are those of the model; both default contexts bind every name n to AD::n / f64::n. parse_print (when present in Thm/C06Print): every string of the grammar Spec/Grammar.lean compiles to the tree it denotes. Model vs implementation: the actual tree is read back through compile_expression::<I,Sym> and compared on grammar-directed renderings, exhaustive token strings, mutations, Unicode; numeric eval at f64 and AD compared bit-for-bit with the model and with a reference evaluator of the conventional tree.",
